@@ -362,9 +362,11 @@ fn run_one(mode: &str, root_s: &str, form: &str, loc: &str, outcome: &str, o: &m
     let d_end = diff(&before, &after);
     let d_open = st.after_open.as_ref().map(|s| diff(&before, s)).unwrap_or_default();
     // ---- oracle: the property itself -------------------------------------------------------------
+    let mut reported: Vec<(&str, &Vec<u8>)> = Vec::new();
     for (k, p) in d_open.iter().chain(d_end.iter()) {
         let shown = show_path(rootb, p);
-        if !shown.starts_with("dest/") {
+        if !shown.starts_with("dest/") && !reported.contains(&(*k, p)) {
+            reported.push((*k, p));
             let class = match *k {
                 "+d" => "escape-mkdir",
                 "+f" => "escape-create",
@@ -544,6 +546,13 @@ fn execute_ops(ops: &[String], workers: usize) -> Vec<(String, Vec<(String, Stri
     let base = format!("{}path-{}-{}", WORK, std::process::id(), k);
     std::fs::remove_dir_all(&base).ok();
     std::fs::create_dir_all(&base).unwrap();
+    struct Cleanup(String);
+    impl Drop for Cleanup {
+        fn drop(&mut self) {
+            std::fs::remove_dir_all(&self.0).ok();
+        }
+    }
+    let _cleanup = Cleanup(base.clone()); // also when a spawn fails and we unwind
     let workers = workers.max(1).min(ops.len().max(1));
     let exe = std::env::current_exe().expect("current exe");
     let mut kids = Vec::new();
